@@ -31,6 +31,8 @@ type wedgeCase struct {
 	HoldTick   bool `json:"hold_tick"`   // keep the tick's query pending until the bulk removal is under way
 	Reassoc    bool `json:"reassoc"`     // bulk removal by re-association (else: nothing)
 	DeadlineMs int  `json:"deadline_ms"` // heartbeat deadline after the burst
+	URRs       int  `json:"urrs"`        // periodic URRs per session (default 1): timer events per bulk removal = sessions x urrs
+	Burst      int  `json:"burst"`       // instead of tick / re-association: this many BUFFER notifications for one PDR of session 1
 }
 
 type wedgeOut struct {
@@ -135,11 +137,17 @@ func wedgeOne(f *fixture, c wedgeCase) wedgeOut {
 			}
 		}
 	}()
+	nurr := c.URRs
+	if nurr < 1 {
+		nurr = 1
+	}
 	for i := 0; i < c.Sessions; i++ {
-		send(message.NewSessionEstablishmentRequest(0, 0, 0, uint32(10+i), 0, nodeIE(),
-			ie.NewFSEID(uint64(1000+i), net.ParseIP(peerIP(f.prefix, 0)), nil),
-			ie.NewCreateURR(ie.NewURRID(1), ie.New(ie.MeasurementMethod, []byte{2}), ie.NewReportingTriggers(0x01, 0x00),
-				ie.NewMeasurementPeriod(60*time.Second))))
+		ies := []*ie.IE{nodeIE(), ie.NewFSEID(uint64(1000+i), net.ParseIP(peerIP(f.prefix, 0)), nil)}
+		for u := 1; u <= nurr; u++ {
+			ies = append(ies, ie.NewCreateURR(ie.NewURRID(uint32(u)), ie.New(ie.MeasurementMethod, []byte{2}), ie.NewReportingTriggers(0x01, 0x00),
+				ie.NewMeasurementPeriod(60*time.Second)))
+		}
+		send(message.NewSessionEstablishmentRequest(0, 0, 0, uint32(10+i), 0, ies...))
 		if i%50 == 49 {
 			f.barrierRT(5 * time.Second)
 		}
@@ -148,7 +156,20 @@ func wedgeOne(f *fixture, c wedgeCase) wedgeOut {
 		out.Error = "establishment phase did not complete"
 		return out
 	}
-	out.Established = len(k.Rules(forwarder.SimURR))
+	out.Established = len(k.Rules(forwarder.SimURR)) / nurr
+	if c.Burst > 0 {
+		// more buffered packets for one PDR than its queue holds: the surplus must be dropped, the loop must go on
+		for n := 0; n < c.Burst; n++ {
+			k.InjectBuffer(1, 1, 4 /* BUFF */, []byte{byte(n >> 8), byte(n), 0xaa})
+		}
+		t0 := time.Now()
+		out.Answered = f.barrierRT(time.Duration(c.DeadlineMs) * time.Millisecond)
+		out.AnswerMs = time.Since(t0).Milliseconds()
+		if !out.Answered {
+			out.Blocked = blockedSites()
+		}
+		return out
+	}
 
 	release := make(chan struct{})
 	inQuery := make(chan struct{}, 1)
